@@ -36,7 +36,7 @@ func (d *DPT_16000) Unpack(data []byte) error {
 
 	var buf = []rune{}
 
-	for i := 1; i < len(data) && data[i] != 0x00; i++ {
+	for i := 1; i < len(data) && data[i]&unicode.MaxASCII != 0x00; i++ {
 		buf = append(buf, rune(data[i]&unicode.MaxASCII))
 	}
 
